@@ -323,7 +323,8 @@ def safe_map_indexed_values(data_indices, data_values, map_field, map_filter, em
 @exetera_njit
 def safe_map_values(data_field, map_field, map_filter, empty_value=None):
     result = np.zeros_like(map_field, dtype=data_field.dtype)
-    empty_val = result[0] if empty_value is None else empty_value
+    # the type's zero value; taken from a one-element array because `result` may be empty
+    empty_val = np.zeros(1, dtype=data_field.dtype)[0] if empty_value is None else empty_value
     for i in range(len(map_field)):
         if map_filter[i]:
             result[i] = data_field[map_field[i]]
